@@ -53,22 +53,28 @@ class Outcome:
 class TestSpec:
     """One generated check of a property.
 
-    strategy : callable(factor) -> hypothesis strategy of cases (factor is None unless
-               `factors` is given, in which case every factor is enumerated)
-    body     : callable(case) -> Outcome
-    n        : {'quick': cases, 'thorough': cases} (total over all shards, per factor
-               when factors is given)
+    gen    : callable(R[, factor]) -> case; decodes one case from a byte tape drawn by
+             Hypothesis (st.binary of fixed length `tape`)
+    body   : callable(case) -> Outcome
+    n      : {'quick': cases, 'thorough': cases} (total over all shards; per factor when
+             `factors` is given, in which case every factor is enumerated)
     """
 
-    def __init__(self, name, strategy, body, n, factors=None, show=None, encode=None, decode=None):
+    def __init__(self, name, gen, body, n, factors=None, tape=1024, show=None):
         self.name = name
-        self.strategy = strategy
+        self.gen = gen
         self.body = body
         self.n = n
         self.factors = factors
+        self.tape = tape
         self.show = show
-        self.encode = encode
-        self.decode = decode
+
+    def decode(self, tape, factor):
+        from .gen import R
+
+        if self.factors is not None:
+            return self.gen(R(tape), factor)
+        return self.gen(R(tape))
 
 
 class CaseTimeout(Exception):
@@ -92,7 +98,7 @@ class Collector:
         self.timeouts = 0
         self.harness_errors = []
 
-    def record(self, test, case, out, origin):
+    def record(self, test, case, out, origin, tape=None):
         from .terms import enc, case_hash, show
 
         self.cases += 1
@@ -116,12 +122,12 @@ class Collector:
             if b is None:
                 self.buckets[v.sig] = {
                     "sig": v.sig, "clause": v.clause, "detail": v.detail, "count": 1,
-                    "test": test.name, "case": e, "size": len(e), "origin": origin,
+                    "test": test.name, "case": e, "size": len(e), "origin": origin, "tape": tape,
                 }
             else:
                 b["count"] += 1
                 if e is not None and len(e) < b["size"]:
-                    b.update(case=e, size=len(e), detail=v.detail, origin=origin)
+                    b.update(case=e, size=len(e), detail=v.detail, origin=origin, tape=tape)
 
     def merge(self, o):
         self.evals += o.evals
@@ -147,7 +153,7 @@ class Collector:
 
 
 # --------------------------------------------------------------------------- execution
-def run_body(test, case, col, origin, timeout=20):
+def run_body(test, case, col, origin, timeout=20, tape=None):
     """Run one case through the property body with watchdog and escape handling."""
     from .build import exc_sig, exc_detail
 
@@ -172,7 +178,7 @@ def run_body(test, case, col, origin, timeout=20):
             return None
         out = Outcome()
         out.violations.append(V("unexpected-exception", sig, exc_detail(e)))
-    col.record(test, case, out, origin)
+    col.record(test, case, out, origin, tape)
     return out
 
 
@@ -203,7 +209,7 @@ def _worker(args):
     test = get_tests(prop, tier)[test_idx]
     col = Collector()
     import hypothesis
-    from hypothesis import given
+    from hypothesis import given, strategies as st
 
     n_total = test.n[tier]
     factors = test.factors if test.factors is not None else [None]
@@ -217,15 +223,15 @@ def _worker(args):
             n = max(1, n_total // nshards)
         s = derive_seed(base_seed, test.name, fi, shard)
         origin = {"factor": fi, "shard": shard, "seed": s, "n": n}
-        strat = test.strategy(factor)
+        strat = st.binary(min_size=test.tape, max_size=test.tape)
 
-        def mk(origin_):
-            def one(case):
-                run_body(test, case, col, origin_)
+        def mk(origin_, factor_):
+            def one(tape):
+                run_body(test, test.decode(tape, factor_), col, origin_, tape=tape)
 
             return one
 
-        t = hypothesis.seed(s)(hyp_settings(n)(given(strat)(mk(origin))))
+        t = hypothesis.seed(s)(hyp_settings(n)(given(strat)(mk(origin, factor))))
         try:
             t()
         except Exception:
@@ -234,45 +240,86 @@ def _worker(args):
 
 
 def shrink_bucket(prop, tier, test_idx, bucket, budget_s):
-    """Re-find the bucket's violation with the seed that found it and let Hypothesis
-    shrink it; falls back to the smallest collected instance."""
-    import hypothesis
-    from hypothesis import given
-    from .terms import enc, dec
+    """Minimise the byte tape that produced the bucket's smallest violation (truncate to
+    a zero suffix, zero chunks, delete chunks, lower bytes), re-running the property body
+    on every candidate; bounded by a wall-clock budget.  Returns (case_json, shrunk?)."""
+    from .terms import enc
 
     test = get_tests(prop, tier)[test_idx]
-    o = bucket["origin"]
+    tape = bucket.get("tape")
+    if tape is None:
+        return bucket["case"], False
     factors = test.factors if test.factors is not None else [None]
-    strat = test.strategy(factors[o["factor"]])
-    best = {"case": None, "size": None}
-    t_end = time.time() + budget_s
+    factor = factors[bucket["origin"]["factor"]]
     sig = bucket["sig"]
+    t_end = time.time() + budget_s
+    L = len(tape)
 
-    class Found(Exception):
-        pass
-
-    class Stop(BaseException):
-        pass
-
-    def one(case):
+    def fails(t):
         if time.time() > t_end:
-            raise Stop()
+            return False
         col = Collector()
-        out = run_body(test, case, col, o)
-        if out is not None and any(v.sig == sig for v in out.violations):
-            e = json.dumps(enc(case), sort_keys=True)
-            if best["size"] is None or len(e) <= best["size"]:
-                best.update(case=e, size=len(e))
-            raise Found()
+        try:
+            case = test.decode(bytes(t), factor)
+        except Exception:
+            return False
+        out = run_body(test, case, col, bucket["origin"])
+        return out is not None and any(v.sig == sig for v in out.violations)
 
-    t = hypothesis.seed(o["seed"])(hyp_settings(o["n"], shrink=True)(given(strat)(one)))
-    try:
-        t()
-    except BaseException:
-        pass
-    if best["case"] is not None and best["size"] <= bucket["size"]:
-        return best["case"], True
-    return bucket["case"], False
+    cur = bytearray(tape)
+    if not fails(cur):
+        return bucket["case"], False
+    # 1. shortest prefix followed by zeros
+    lo, hi = 0, L
+    while lo < hi and time.time() < t_end:
+        mid = (lo + hi) // 2
+        cand = cur[:mid] + bytearray(L - mid)
+        if fails(cand):
+            hi = mid
+            cur = cand
+        else:
+            lo = mid + 1
+    used = hi
+    improved = True
+    while improved and time.time() < t_end:
+        improved = False
+        # 2. delete chunks (shifts the rest left)
+        for size in (64, 16, 4, 2, 1):
+            i = 0
+            while i + size <= used and time.time() < t_end:
+                cand = cur[:i] + cur[i + size:] + bytearray(size)
+                if cand != cur and fails(cand):
+                    cur = cand
+                    used = max(0, used - size)
+                    improved = True
+                else:
+                    i += size
+        # 3. zero chunks
+        for size in (32, 8, 2, 1):
+            i = 0
+            while i < used and time.time() < t_end:
+                if any(cur[i:i + size]):
+                    cand = bytearray(cur)
+                    cand[i:i + size] = bytearray(len(cand[i:i + size]))
+                    if fails(cand):
+                        cur = cand
+                        improved = True
+                i += size
+        # 4. lower single bytes
+        for i in range(used):
+            if time.time() > t_end:
+                break
+            b = cur[i]
+            for nb in (b // 2, b - 1):
+                if 0 < nb < b:
+                    cand = bytearray(cur)
+                    cand[i] = nb
+                    if fails(cand):
+                        cur = cand
+                        improved = True
+                        break
+    case = test.decode(bytes(cur), factor)
+    return json.dumps(enc(case), sort_keys=True), True
 
 
 # --------------------------------------------------------------------------- known findings
